@@ -83,11 +83,17 @@ type exec struct {
 	createdM map[string]bool
 	blocks   [][]*blockchain.Transaction
 	nOps     int
+	// labelHist: put the op history into the watchdog's label (directed scenarios, where the
+	// label is the minimal witness of a non-returning call)
+	labelHist bool
 }
 
 func newExec(k *mon.Case, cfg poolCfg, live bool) *exec {
 	x := &exec{k: k, e: newEnv(cfg), live: live, feat: map[string]bool{}, foundSet: map[string]bool{}, createdM: map[string]bool{}}
 	x.c = &caller{k: k, context: func() string {
+		if !x.labelHist {
+			return "" // random streams: (stream, index, seed) in the replay file reproduce the history
+		}
 		h := strings.Join(x.hist, "; ")
 		if len(h) > 700 {
 			h = "..." + h[len(h)-700:]
